@@ -4,6 +4,7 @@ package props
 
 import (
 	"bytes"
+	"sync"
 	"testing"
 
 	"github.com/onflow/crypto/random"
@@ -114,7 +115,7 @@ func TestC14_Stream(t *testing.T) {
 				if !bytes.Equal(a.Store(), f.r.Store()) {
 					g.Fatalf("states differ after identical UintN calls")
 				}
-				f.pos = storedPos(f.r.Store())
+				f.pos = streamPos(g, f.r, seed, nonce, f.pos, 1<<14)
 				kinds["uintn"] = true
 			case 8: // Permutation on a restored copy equals permutation on the original
 				n := g.Int("permN", 0, 40)
@@ -127,7 +128,7 @@ func TestC14_Stream(t *testing.T) {
 				if !bytes.Equal(a.Store(), f.r.Store()) {
 					g.Fatalf("states differ after identical Permutation calls")
 				}
-				f.pos = storedPos(f.r.Store())
+				f.pos = streamPos(g, f.r, seed, nonce, f.pos, 1<<14)
 				kinds["perm"] = true
 			case 9: // Samples
 				n := g.Int("sampN", 0, 40)
@@ -139,12 +140,12 @@ func TestC14_Stream(t *testing.T) {
 				if e1 != nil || e2 != nil || !equalInts(xa, xb) {
 					g.Fatalf("Samples(%d,%d) differs between a generator and its restored copy", n, m)
 				}
-				f.pos = storedPos(f.r.Store())
+				f.pos = streamPos(g, f.r, seed, nonce, f.pos, 1<<14)
 				kinds["samples"] = true
 			}
-			// the stored counter always equals the model position
-			if p := storedPos(f.r.Store()); p != f.pos {
-				g.Fatalf("Store() reports offset %d, model offset is %d", p, f.pos)
+			// a copy restored from Store() continues exactly at the model position (independent of the state's layout)
+			if p := streamPos(g, f.r, seed, nonce, f.pos, 0); p != f.pos {
+				g.Fatalf("a generator restored from Store() does not continue at the model offset %d", f.pos)
 			}
 		}
 		// all forks: a final read from each must match the model
@@ -238,11 +239,22 @@ func TestC14_Invalid(t *testing.T) {
 				st[48] = 0
 			}
 		}
+		if stl == 52 && !c14LayoutKnown() {
+			// the state layout is not seed‖customizer‖little-endian offset any more: hand-built states are not used
+			g.Class("storeLayoutUnknown:handBuiltStatesSkipped")
+			return
+		}
 		r2, err := random.RestoreChacha20PRG(st)
-		if (stl == 52) != (err == nil) {
+		if stl != 52 && err == nil {
+			// (only Store() outputs have a defined length; other lengths must be rejected)
+			if l := len(c14RefState()); l != stl {
+				g.Fatalf("RestoreChacha20PRG accepted a %d-byte state, Store() returns %d bytes", stl, l)
+			}
+		}
+		if stl == 52 && err != nil {
 			g.Fatalf("RestoreChacha20PRG(%d bytes): err=%v", stl, err)
 		}
-		if err == nil {
+		if err == nil && stl == 52 {
 			pos := storedPos(st)
 			buf := make([]byte, 70)
 			r2.Read(buf)
@@ -255,6 +267,50 @@ func TestC14_Invalid(t *testing.T) {
 			g.Class("rejectedLength")
 		}
 	})
+}
+
+// streamPos locates the stream offset of a generator without looking into the Store() layout: a copy restored
+// from Store() is read and its output is searched in the oracle keystream starting at the last known offset.
+func streamPos(g *gen.G, r random.Rand, seed, nonce []byte, from uint64, window int) uint64 {
+	c, err := random.RestoreChacha20PRG(r.Store())
+	if err != nil {
+		g.Fatalf("RestoreChacha20PRG(Store()) failed at offset >= %d: %v", from, err)
+	}
+	probe := make([]byte, 48)
+	c.Read(probe)
+	ks := chacha.Keystream(seed, nonce, from, window+48)
+	i := bytes.Index(ks, probe)
+	if i < 0 {
+		g.Fatalf("a generator restored from Store() does not continue the keystream within %d bytes after offset %d", window, from)
+	}
+	return from + uint64(i)
+}
+
+var c14Layout struct {
+	once  sync.Once
+	known bool
+	ref   []byte
+}
+
+func c14RefState() []byte { c14LayoutKnown(); return c14Layout.ref }
+
+// c14LayoutKnown reports whether Store() still has the layout seed‖zero-padded customizer‖little-endian byte offset,
+// which the hand-built states of TestC14_Invalid (offsets beyond 4 GiB) rely on.
+func c14LayoutKnown() bool {
+	c14Layout.once.Do(func() {
+		seed := gen.ExpandSeed(1, 32)
+		cust := []byte{9, 8, 7}
+		r, err := random.NewChacha20PRG(seed, cust)
+		if err != nil {
+			return
+		}
+		r.Read(make([]byte, 77))
+		st := r.Store()
+		c14Layout.ref = st
+		want := append(append(append([]byte{}, seed...), padNonce(cust)...), 77, 0, 0, 0, 0, 0, 0, 0)
+		c14Layout.known = bytes.Equal(st, want)
+	})
+	return c14Layout.known
 }
 
 func storedPos(st []byte) uint64 {
